@@ -12,6 +12,9 @@ Driver of C13.  Ops (one per line):
                                                                           `TSigVerifier::verify`
 * `srv  <origin> <allow_update> <deny|all|signed> <signers|-> <now> <buf> <rdok> <journal>`
                                                                           Catalog + SqliteZoneHandler
+* `begin vseq <signer> <reqmac> <request_time> <req>` / `vmsg <buf> <rdok> <parseok> <macok>` … / `end`
+      ONE `TSigVerifier` fed a sequence of messages; the driver threads the model's `Verifier`
+      (`Verifier.verify` per message = `Verifier.verifySeq` over the block)
 
 `<signer>` = `<name>/<alg bits>/<fudge>/<macok>/<keyid>` where `macok` is the verdict of the real
 HMAC (`hmac::verify(key, tbs, mac-in-the-message)`) evaluated by the harness and `keyid` names the
@@ -22,8 +25,9 @@ chain) and `<journal>` only tell the harness how to set the real objects up; the
 namespace HickoryVerif.Drv.C13
 open HickoryVerif HickoryVerif.Drv HickoryVerif.Tsig
 
-abbrev State := Unit
-def init : State := ()
+/-- the verifier of the `vseq` block being replayed, if any -/
+abbrev State := Option Verifier
+def init : State := none
 
 def parseBool (s : String) : Option Bool :=
   if s == "1" then some true else if s == "0" then some false else none
@@ -105,6 +109,22 @@ def handle (toks : List String) : Option String :=
   | _ => none
 
 def step (s : State) (toks : List String) : State × String :=
-  (s, (handle toks).getD "bad-op")
+  match toks with
+  | ["begin", "vseq", sg, reqmac, qt, _req] =>
+    match parseSigner sg, parseHex reqmac, qt.toNat? with
+    | some sg, some reqmac, some qt =>
+      (some { signer := sg, previous := reqmac, remoteTime := 0, requestTime := qt }, "ok")
+    | _, _, _ => (none, "bad-op")
+  | ["end"] => (none, "ok")
+  | ["vmsg", buf, rdok, pok, macok] =>
+    match s, parseHex buf, parseBool rdok, parseBool pok, parseBool macok with
+    | some v, some buf, some rdok, some pok, some macok =>
+      let v1 : Verifier := { v with signer := { v.signer with macOK := fun _ _ => macok } }
+      match v1.verify buf rdok pok with
+      | .ok v' => (some v', s!"ok {toHex v'.previous} {v'.remoteTime}")
+      | .err => (some v, "err")
+      | .panic m => (some v, "panic " ++ m)
+    | _, _, _, _, _ => (s, "bad-op")
+  | _ => (s, (handle toks).getD "bad-op")
 
 end HickoryVerif.Drv.C13
